@@ -468,7 +468,7 @@ def estimate_R0(G, tau = None, gamma = None, transmissibility = None):
 ########  having given status based on probabilities of neighbors.  Assumes
 ########  independence.
     
-def _dSIS_individual_based_(Y, t, G, nodelist, trans_rate_fxn, rec_rate_fxn):
+def _dSIS_individual_based_(Y, t, G, nodelist, index_of_node, trans_rate_fxn, rec_rate_fxn):
     N = len(nodelist)
     dY = np.zeros(N)
     for index, (node, Yi) in enumerate(zip(nodelist,Y)):
@@ -479,7 +479,7 @@ def _dSIS_individual_based_(Y, t, G, nodelist, trans_rate_fxn, rec_rate_fxn):
         #numpy sparse matrices.  Perhaps that works?
         #No plan to do premature optimization.  Let's get it
         #working and then see if it's slow.
-        dY[index] = sum(trans_rate_fxn(node,nbr)*(1-Y[node])*Y[nbr] 
+        dY[index] = sum(trans_rate_fxn(node,nbr)*(1-Yi)*Y[index_of_node[nbr]] 
                             for nbr in G.neighbors(node)) - rec_rate_fxn(node)*Yi
     return dY
 
@@ -614,9 +614,11 @@ def SIS_individual_based(G, tau, gamma, rho = None, Y0=None, nodelist = None, tm
                                                 transmission_weight,
                                                 recovery_weight)
 
+    index_of_node = {node:i for i, node in enumerate(nodelist)}
+
     times = np.linspace(tmin, tmax, tcount)
     Y = integrate.odeint(_dSIS_individual_based_, Y0, times,  
-                                    args =(G, nodelist, trans_rate_fxn, rec_rate_fxn))
+                                    args =(G, nodelist, index_of_node, trans_rate_fxn, rec_rate_fxn))
     Is = Y.T
     Ss = np.ones(len(Is))[:,None]-Is 
     
